@@ -255,6 +255,7 @@ protected:
 		mutable _Xml* parent;
 		_Xml() : parent(NULL) {}
 		_Xml(const String& t) : tag(t), parent(NULL) {}
+		virtual ~_Xml();
 		virtual const String& text() const;
 		virtual bool isText() const { return false; }
 		virtual _Xml* clone(bool detach = true) const;
